@@ -431,7 +431,7 @@ func checkChainAssembly(c *Check) {
 				continue
 			}
 			a := asCall(u.Instr.(*ssa.Store).Val)
-			okUse = a != nil && callName(&a.Call) == "builtin.append" && vField(vParam(use, 0), "handlers")(a.Call.Args[0]) && vParam(use, 1)(a.Call.Args[1])
+			okUse = a != nil && callName(&a.Call) == "builtin.append" && vField(vParam(use, 0), "handlers")(a.Call.Args[0]) && (vParam(use, 1)(a.Call.Args[1]) || copyOf(use, a.Call.Args[1], vParam(use, 1), a))
 			if !okUse {
 				c.Bad(p.FuncKey(use)+":order", p.Pos(u.Instr.Pos()), "Use does not append the new middleware after the existing ones: "+vstr(u.Instr.(*ssa.Store).Val))
 			}
